@@ -47,7 +47,13 @@ func init() {
 		helperMain()
 		os.Exit(0)
 	}
-	extra["C10"] = runC10Proc
+	prev := extra["C10"] // legs attached by files that sort before this one (c07_wrap.go) must not be lost
+	extra["C10"] = func(c *core.Ctx) {
+		if prev != nil {
+			prev(c)
+		}
+		runC10Proc(c)
+	}
 }
 
 // =====================================================================================================
@@ -562,6 +568,11 @@ func runProcHistory(c *core.Ctx, m *core.Model, r *rand.Rand, self string, hidx 
 	names := storeNames(r)
 	p := storeProfile{name: "c10proc", maxOps: 24, reopenPct: 0, bigPct: 5}
 	ops := genHistory(r, p, names, 5+r.Intn(p.maxOps))
+	for i := range ops {
+		if ops[i].kind == "visitk" { // the helper process has no stopping visitor; a full walk instead
+			ops[i] = storeOp{kind: "visit"}
+		}
+	}
 	nr := 1 + r.Intn(3)
 	cut := map[int]bool{} // restart before ops[i]; 1 <= i <= len(ops)-1
 	for len(cut) < nr && len(cut) < len(ops)-1 {
